@@ -62,6 +62,13 @@ class C13(Check):
             "the same traffic precedes the queries (*net.UDPConn path; tcp / tcp-tls clients that stay silent, write "
             "junk, send a short message, refuse the certificate) and after Shutdown and the serve call returned "
             "every such client must see its connection ended and srv.conns must be empty; "
+            "every failing ListenAndServe for every srv.Net value (udp/tcp/tcp-tls and their 4/6 variants: address in use, "
+            "bad port, no port, address of the other family; the -tls values with a nil / empty / certificate-less "
+            "TLSConfig, also together with an address in use and on port 0; twelve unknown Net values) on an address "
+            "the harness chose (bind :0, close, reuse the number), garbage collection off: afterwards the process holds "
+            "no bound socket it did not hold before (/proc/self/fd against /proc/net/tcp*,udp*), a dial of the address "
+            "is refused / the udp port can be bound, the goroutine count is back, and the corrected start of the same "
+            "Server value on the SAME address serves a complete life; a verdict must repeat on three different ports; "
             "every boundary-event log is checked by direct oracles and for acceptance "
             "by the LTS inside Coq; 12 Server values over real loopback UDP/TCP sockets, each living twice, with the direct oracles; goroutine "
             "count back at baseline after every scenario. A case is one event log; distinct by hash.")
